@@ -358,7 +358,7 @@ def run(tier, seed, part=None):
     chk.assumptions = ["single console endpoint; faults limited to the menu in DESIGN §6 C07",
                        "CPython refcounting finalises an overwritten StreamWriter immediately"]
     stair = QUICK if tier == "quick" else THOROUGH
-    cap = 50 if tier == "quick" else 900
+    cap = 50 if tier == "quick" else 300
     for gen in (4, 5):
         for depth, dev in stair:
             params = {"gen": gen}
